@@ -9,6 +9,9 @@
 //           relation absent / twin / same-kind conflict / cross-kind conflict / new.
 //   part 2 (special): empty B, identical copy, empty A, same B merged twice.
 //   part 3 (random, own PRNG): whole modules with all name spaces, GROUP/FUNCTION, singletons, sequences of 1..3 merges.
+//   part 4 (exhaustive, small scope): B's object X conflicts with A's X and B's TYPEDEF_AXIS / TYPEDEF_CHARACTERISTIC T has
+//           the text of A's T but refers to X: T is conserved as T.MERGE<n> referring to X.MERGE<n>, B's INSTANCEs /
+//           STRUCTURE_COMPONENTs of type T follow (own oracle: the complete expected module).
 // Oracle: the property statement on plain views (kind, name, Debug fingerprint without the own name) of the public lists:
 //   every element of A still there and unchanged; each element of B is shared (identical), added under its own name (new)
 //   or added exactly once under a fresh name "<n>.MERGE*" that is in neither input (conflict); nothing else is added;
@@ -722,6 +725,8 @@ enum Expect {
     SameAsA,
     /// additionally: the result equals B before the merge (A empty)
     SameAsB,
+    /// part 4: instead of the step oracle (for which B's typedef is a twin) the exact expected result is compared
+    Follow(FollowSpec),
 }
 
 fn load(text: &str) -> Result<A2lFile, String> {
@@ -751,9 +756,12 @@ fn run_case_inner(a_text: &str, b_texts: &[String], expect: Expect) -> Vec<Strin
         a.merge_modules(&mut b);
         let mut e = Vec::new();
         let r = snapshot(&a.project.module[0], &mut e);
-        oracle_step(&a0, &b0, &r, &mut e);
         match expect {
-            Expect::Step => {}
+            Expect::Follow(spec) => follow_oracle(&spec, &a0, &b0, &r, &mut e),
+            _ => oracle_step(&a0, &b0, &r, &mut e),
+        }
+        match expect {
+            Expect::Step | Expect::Follow(_) => {}
             Expect::SameAsA => {
                 if r != a0 {
                     e.push("merging an empty module / an identical copy changed A".to_string());
@@ -1125,6 +1133,248 @@ fn related_module(rng: &mut Rng, ctx: &mut Ctx, a: &ModSpec, density: usize) -> 
 }
 
 // ---------------------------------------------------------------------------------------------------------------
+// part 4: B contains an object X that conflicts with A's X (so it is added as X.MERGE<n>) AND a TYPEDEF_AXIS /
+// TYPEDEF_CHARACTERISTIC T that is textually identical to A's T but refers to X (input_quantity, AXIS_PTS_REF,
+// CURVE_AXIS_REF). B's T designates B's X: once that reference is renamed it is NOT identical to A's T, so by the
+// property it is conserved: added under a fresh name T.MERGE<n> with the renamed reference, and B's users of T
+// (INSTANCE.type_ref, STRUCTURE_COMPONENT.component_type) follow. The users have new or conflicting names only: a user
+// that is itself a textual twin of A's element is the known finding KF-C09-1 (equality decided on the text before the
+// references of the same step are renamed) and belongs to C09.
+// The oracle is independent of the step oracle: the fresh names are read off the result, the complete expected module
+// is rendered as text with these names, loaded, and compared element by element with the result.
+
+#[derive(Clone, Copy, PartialEq, Eq, Debug)]
+struct FollowSpec {
+    /// 0 TYPEDEF_AXIS.input_quantity, 1..3 TYPEDEF_CHARACTERISTIC/AXIS_DESCR: input_quantity, AXIS_PTS_REF,
+    /// CURVE_AXIS_REF, 4: three AXIS_DESCR that use all three sites
+    site: u8,
+    /// B's X compared with A's X: 0 twin (control: nothing is renamed, B's T is identical), 1 other long identifier,
+    /// 2 other number deep inside, 3 other kind of the object name space
+    rel: u8,
+    /// names that are taken already: 0 none, 1 A has X.MERGE and T.MERGE, 2 B has new elements X.MERGE and T.MERGE,
+    /// 3 A has T.MERGE and B has a new T.MERGE2
+    pre: u8,
+    /// B's users of T: 0 none, 1 a new INSTANCE, 2 a new INSTANCE, an INSTANCE that conflicts with A's INSTANCE of the
+    /// same name and a new TYPEDEF_STRUCTURE with a component of type T
+    users: u8,
+    /// B lists the users first, then the typedef, then the object
+    reversed: bool,
+}
+
+fn follow_object_kind(site: u8) -> Kind {
+    match site {
+        2 => Kind::AxisPts,
+        3 => Kind::Characteristic,
+        _ => Kind::Measurement,
+    }
+}
+
+fn follow_elem(kind: Kind, name: &str, id: u32, deep: bool) -> String {
+    let mut s = String::new();
+    render_elem(&ElemSpec { kind, name: name.to_string(), id, deep }, &mut s);
+    s
+}
+
+/// the typedef with its reference to the object `r`
+fn follow_typedef(site: u8, name: &str, r: &str) -> String {
+    let axis = |attr: &str, iq: &str, extra: &str| format!("/begin AXIS_DESCR {attr} {iq} NO_COMPU_METHOD 5 0 100 {extra} /end AXIS_DESCR");
+    let body = match site {
+        0 => return format!("    /begin TYPEDEF_AXIS {name} \"same\" {r} ext_rl 0 NO_COMPU_METHOD 5 0 100 /end TYPEDEF_AXIS\n"),
+        1 => axis("STD_AXIS", r, ""),
+        2 => axis("COM_AXIS", "NO_INPUT_QUANTITY", &format!("AXIS_PTS_REF {r}")),
+        3 => axis("CURVE_AXIS", "NO_INPUT_QUANTITY", &format!("CURVE_AXIS_REF {r}")),
+        _ => format!(
+            "{} {} {}",
+            axis("STD_AXIS", r, ""),
+            axis("COM_AXIS", "NO_INPUT_QUANTITY", &format!("AXIS_PTS_REF {r}")),
+            axis("CURVE_AXIS", r, &format!("CURVE_AXIS_REF {r}"))
+        ),
+    };
+    format!("    /begin TYPEDEF_CHARACTERISTIC {name} \"same\" CURVE ext_rl 0 NO_COMPU_METHOD 0 100 {body} /end TYPEDEF_CHARACTERISTIC\n")
+}
+
+fn follow_instance(name: &str, li: &str, ty: &str) -> String {
+    format!("    /begin INSTANCE {name} \"{li}\" {ty} 4096 /end INSTANCE\n")
+}
+
+fn follow_structure(name: &str, ty: &str) -> String {
+    format!("    /begin TYPEDEF_STRUCTURE {name} \"s\" 8 /begin STRUCTURE_COMPONENT comp {ty} 0 /end STRUCTURE_COMPONENT /end TYPEDEF_STRUCTURE\n")
+}
+
+fn follow_wrap(elems: &[String]) -> String {
+    let mut s = String::from("ASAP2_VERSION 1 71\n/begin PROJECT p \"\"\n  /begin MODULE m \"\"\n");
+    for e in elems {
+        s.push_str(e);
+    }
+    s.push_str("  /end MODULE\n/end PROJECT\n");
+    s
+}
+
+fn follow_a_elems(sp: &FollowSpec) -> Vec<String> {
+    let kind_b = follow_object_kind(sp.site);
+    let kind_a = if sp.rel == 3 { Kind::Blob } else { kind_b };
+    let mut v = vec![follow_elem(kind_a, "X", 1, sp.rel == 2)];
+    if sp.pre == 1 {
+        v.push(follow_elem(Kind::Blob, "X.MERGE", 11, false));
+        v.push(follow_elem(Kind::TypedefBlob, "T.MERGE", 12, false));
+    }
+    if sp.pre == 3 {
+        v.push(follow_elem(Kind::TypedefBlob, "T.MERGE", 12, false));
+    }
+    v.push(follow_typedef(sp.site, "T", "X"));
+    if sp.users == 2 {
+        v.push(follow_instance("I", "instance of A", "ext_type"));
+    }
+    v
+}
+
+/// B's elements as they are expected in the result: the object under `x`, the typedef under `t` referring to `x`, the
+/// conflicting INSTANCE under `i`. With ("X", "T", "I") this is B itself.
+fn follow_b_elems(sp: &FollowSpec, x: &str, t: &str, i: &str, for_result: bool) -> Vec<String> {
+    let kind_b = follow_object_kind(sp.site);
+    let id_b = if sp.rel == 0 || sp.rel == 3 { 1 } else { 2 };
+    let mut users = Vec::new();
+    if sp.users >= 1 {
+        users.push(follow_instance("Inew", "new instance", t));
+    }
+    if sp.users == 2 {
+        users.push(follow_instance(i, "instance of B", t));
+        users.push(follow_structure("Snew", t));
+    }
+    let mut defs = Vec::new();
+    // in the result a twin object / an identical typedef is not added a second time
+    if !(for_result && sp.rel == 0) {
+        defs.push(follow_typedef(sp.site, t, x));
+    }
+    let mut objs = Vec::new();
+    if !(for_result && sp.rel == 0) {
+        objs.push(follow_elem(kind_b, x, id_b, sp.rel == 2));
+    }
+    let mut extra = Vec::new();
+    if sp.pre == 2 {
+        extra.push(follow_elem(Kind::Blob, "X.MERGE", 21, false));
+        extra.push(follow_elem(Kind::TypedefBlob, "T.MERGE", 22, false));
+    }
+    if sp.pre == 3 {
+        extra.push(follow_elem(Kind::TypedefBlob, "T.MERGE2", 23, false));
+    }
+    let mut v = Vec::new();
+    if sp.reversed {
+        v.extend(users);
+        v.extend(extra);
+        v.extend(defs);
+        v.extend(objs);
+    } else {
+        v.extend(objs);
+        v.extend(defs);
+        v.extend(extra);
+        v.extend(users);
+    }
+    v
+}
+
+fn follow_oracle(sp: &FollowSpec, a0: &Snapshot, b0: &Snapshot, r: &Snapshot, errs: &mut Vec<String>) {
+    let names = |s: &Snapshot, ns: &str| -> HashSet<String> { s.views.iter().filter(|v| v.ns == ns).map(|v| v.name.clone()).collect() };
+    let mut fresh = |ns: &'static str, orig: &str, what: &str| -> Option<String> {
+        let (an, bn) = (names(a0, ns), names(b0, ns));
+        let c: Vec<String> = r
+            .views
+            .iter()
+            .filter(|v| v.ns == ns && fresh_form(orig, &v.name) && !an.contains(&v.name) && !bn.contains(&v.name))
+            .map(|v| v.name.clone())
+            .collect();
+        if c.len() == 1 {
+            Some(c[0].clone())
+        } else {
+            errs.push(format!(
+                "{what} must be added exactly once under a fresh name {orig}.MERGE<n> that is a name of neither input: found {c:?}"
+            ));
+            None
+        }
+    };
+    let (x, t) = if sp.rel == 0 {
+        ("X".to_string(), "T".to_string())
+    } else {
+        let x = fresh("object", "X", "B's object X (same name as a different object of A)");
+        let t = fresh(
+            "typedef",
+            "T",
+            "B's typedef T (same text as A's T, but it refers to B's X, which is renamed: not identical to A's T)",
+        );
+        match (x, t) {
+            (Some(x), Some(t)) => (x, t),
+            _ => return,
+        }
+    };
+    let i = if sp.users == 2 {
+        match fresh("object", "I", "B's INSTANCE I (same name as a different INSTANCE of A)") {
+            Some(i) => i,
+            None => return,
+        }
+    } else {
+        "I".to_string()
+    };
+    let mut elems = follow_a_elems(sp);
+    elems.extend(follow_b_elems(sp, &x, &t, &i, true));
+    let exp_text = follow_wrap(&elems);
+    let exp = match load(&exp_text) {
+        Ok(f) => {
+            let mut e = Vec::new();
+            snapshot(&f.project.module[0], &mut e)
+        }
+        Err(e) => {
+            errs.push(format!("driver: expected result does not load: {e}"));
+            return;
+        }
+    };
+    let key = |v: &View| (v.ns, v.kind, v.name.clone());
+    let got: HashMap<_, _> = r.views.iter().map(|v| (key(v), v.fp.clone())).collect();
+    let want: HashMap<_, _> = exp.views.iter().map(|v| (key(v), v.fp.clone())).collect();
+    if got.len() != r.views.len() {
+        errs.push("names are not unique in the result".to_string());
+    }
+    let mut wk: Vec<_> = want.keys().cloned().collect();
+    wk.sort();
+    for k in wk {
+        match got.get(&k) {
+            None => errs.push(format!("{} {} is missing in the result (expected: A's elements unchanged, B's X as {x}, B's T as {t} referring to {x}, B's users of T referring to {t})", k.1, k.2)),
+            Some(fp) if *fp != want[&k] => {
+                let w = &want[&k];
+                let p = fp.chars().zip(w.chars()).take_while(|(a, b)| a == b).count();
+                let clip = |s: &str| s.chars().skip(p.saturating_sub(30)).take(90).collect::<String>();
+                errs.push(format!("{} {} differs from the expected content: ...{}... expected ...{}...", k.1, k.2, clip(fp), clip(w)));
+            }
+            _ => {}
+        }
+    }
+    let mut gk: Vec<_> = got.keys().cloned().collect();
+    gk.sort();
+    for k in gk {
+        if !want.contains_key(&k) {
+            errs.push(format!("{} {} is in the result but neither in A nor a representative of an element of B", k.1, k.2));
+        }
+    }
+}
+
+fn follow_cases(cases: &mut Vec<(String, String, Vec<String>, Expect)>) {
+    for site in 0..5u8 {
+        for rel in 0..4u8 {
+            for pre in 0..4u8 {
+                for users in 0..3u8 {
+                    for reversed in [false, true] {
+                        let sp = FollowSpec { site, rel, pre, users, reversed };
+                        let a = follow_wrap(&follow_a_elems(&sp));
+                        let b = follow_wrap(&follow_b_elems(&sp, "X", "T", "I", false));
+                        let id = format!("tdf-s{site}-r{rel}-p{pre}-u{users}{}", if reversed { "-rev" } else { "" });
+                        cases.push((id, a, vec![b], Expect::Follow(sp)));
+                    }
+                }
+            }
+        }
+    }
+}
+
+// ---------------------------------------------------------------------------------------------------------------
 
 #[test]
 fn vf_driver_c08() {
@@ -1142,6 +1392,8 @@ fn vf_driver_c08() {
 
     let mut cases: Vec<(String, String, Vec<String>, Expect)> = Vec::new();
     exhaustive_cases(&mut cases);
+    // part 4: typedef of B that is identical to A's by text but refers to an object that is renamed in this merge
+    follow_cases(&mut cases);
 
     // part 2: special cases
     let mut rng = Rng(seed.wrapping_mul(0x2545_F491_4F6C_DD1D) ^ 0xC08);
